@@ -47,10 +47,15 @@ raw slots of the real table files):
       `c04b phys put` + `c04b phys digest`: one real transaction `Set(present key, value)` driven to
       the files, the model's tables compared with the real ones table by table (fill mark, free-list
       head, FNV of all slot prefixes), then `inv` and `get` on the model's column;
-  `physWriteNode none`, `physWriteValue none`, `physFreeNode`, `physSetHeader`
+  `physPath`, `writeBack`, `finishRoot`, `physInsertAbsent`, `physRemoveLeafKey`, `physInsertSplitLeaf`
+  (with them `physWriteValue none`, `physWriteNode none`, `physSetHeader`, `physRemove` of a value)
+      `c04b phys ins` / `del` / `split` + `c04b phys digest`: three more real transactions per case
+      (absent key without split, leaf key removed without rebalance, absent key with one leaf split),
+      model tables against the real files after each, then `get` and `inv`;
+  `physFreeNode`
       one-line compositions of the tied `physWriteNew` / `physRemove` / `physWriteExisting`
-      (`R8_plan_functions`); not replayed as such (they occur in splits, merges and root changes,
-      whose write-back order is not modelled).
+      a one-line composition of the tied `physRemove` (`R8_plan_functions`); not replayed as such (it
+      occurs in merges and root removal, whose write-back is not modelled).
 
 Modelling decisions
 * `PCol.tables : Nat → VT`, tier `i` is `tables i`; `tables.len() = SIZE_TIERS` (256): an
@@ -340,6 +345,177 @@ def physSetExisting (decomp : Bytes → Option Bytes) (cp : Cmp) (c : PCol) (k :
               | .ok (c2, none) => .ok (some (c2, moved.isSome))
               | .ok (_, some _) => .ok none
 
+/-! ## two more whole transactions: `Set(k, v)` on an ABSENT key that fits its leaf (no split),
+`Dereference(k)` of a key held by a leaf that keeps `ORDER/2` separators (no rebalance).
+
+WRITE-BACK ORDER, modelled literally (it decides which free slot every entry gets):
+`Node::change` descends with the node of every level in memory; the value entry is written or
+removed at the leaf (`create_separator` / `write_existing_value_plan`); on the way back every
+parent runs `write_child`: the child is written by `write_node_plan` at its address iff it is
+`changed`, and only if that write returned a NEW address (the entry changed tier) the parent
+records it and becomes `changed` itself; the root is written at the end of
+`write_sorted_changes`, the header entry is rewritten by `write_plan` iff root address or depth
+changed.  So: value, leaf, [parent, [grand-parent ...]] (each only if its child moved), header. -/
+
+/-- The descent of `Node::change` for `k` from the node `n` at address `a`, `d` levels above the
+leaves: the visited `(address, node, index)` root first, and whether the last one HOLDS the key
+(otherwise it is the leaf and the index is the insertion position).  `none`: an empty child slot
+on the way (`fetch_child` = `None`: the Rust code then does nothing). -/
+def physPath (decomp : Bytes → Option Bytes) (c : PCol) : Nat → Nat → C04.RawNode → Key →
+    Except PErr (Option (List (Nat × C04.RawNode × Nat) × Bool))
+  | 0, a, n, k => .ok (some ([(a, n, (C04.position n.seps k).2)], (C04.position n.seps k).1))
+  | d + 1, a, n, k =>
+    if (C04.position n.seps k).1 = true then .ok (some ([(a, n, (C04.position n.seps k).2)], true))
+    else if n.slot (C04.position n.seps k).2 = 0 then .ok none
+    else
+      match fetchNode decomp c (n.slot (C04.position n.seps k).2) with
+      | .error e => .error e
+      | .ok ch =>
+        match physPath decomp c d (n.slot (C04.position n.seps k).2) ch k with
+        | .error e => .error e
+        | .ok none => .ok none
+        | .ok (some (l, f)) => .ok (some ((a, n, (C04.position n.seps k).2) :: l, f))
+
+/-- `write_child` up the path (nearest parent first): the changed node `n` is written at `a`; if
+its entry moved, the parent gets the new child address and is written in turn.  Result: the
+column and the new address of the topmost node if IT moved. -/
+def writeBack (c : PCol) (a : Nat) (n : C04.RawNode) :
+    List (Nat × C04.RawNode × Nat) → Except PErr (PCol × Option Nat)
+  | [] => physWriteNode c n (some a)
+  | (pa, pn, pi) :: up =>
+    match physWriteNode c n (some a) with
+    | .error e => .error e
+    | .ok (c1, none) => .ok (c1, none)
+    | .ok (c1, some a') => writeBack c1 pa { pn with children := pn.children.set pi a' } up
+
+/-- the end of `write_plan`: the header is rewritten iff the root address changed -/
+def finishRoot (cp : Cmp) (c : PCol) (depth : Nat) : Option Nat → Except PErr PCol
+  | none => .ok c
+  | some r =>
+    match physSetHeader cp c r depth with
+    | .ok (c1, _) => .ok c1
+    | .error e => .error e
+
+def insertAtL {α : Type} (l : List α) (i : Nat) (x : α) : List α := l.take i ++ x :: l.drop i
+
+/-- `write_plan` of the transaction `Set(k, v)`, `k` absent, the leaf not full.  `none`: not of
+that shape (empty tree, key present, full leaf, missing child). -/
+def physInsertAbsent (decomp : Bytes → Option Bytes) (cp : Cmp) (c : PCol) (k : Key) (v : Bytes) :
+    Except PErr (Option PCol) :=
+  match physHeader decomp c with
+  | .error e => .error e
+  | .ok (root, depth) =>
+    if root = NULL_ADDRESS then .ok none
+    else
+      match fetchNode decomp c root with
+      | .error e => .error e
+      | .ok rn =>
+        match physPath decomp c depth root rn k with
+        | .error e => .error e
+        | .ok none => .ok none
+        | .ok (some (path, found)) =>
+          match path.reverse with
+          | [] => .ok none
+          | (la, ln, i) :: up =>
+            if found = true ∨ C04.ORDER ≤ ln.seps.length ∨ path.length ≠ depth + 1 then .ok none
+            else
+              match physWriteValue cp c none v with
+              | .error e => .error e
+              | .ok (_, none) => .ok none
+              | .ok (c1, some va) =>
+                match writeBack c1 la { ln with seps := insertAtL ln.seps i (k, va) } up with
+                | .error e => .error e
+                | .ok (c2, r) =>
+                  match finishRoot cp c2 depth r with
+                  | .error e => .error e
+                  | .ok c3 => .ok (some c3)
+
+/-- `write_plan` of the transaction `Dereference(k)` (column not ref-counted), `k` held by a LEAF
+that keeps at least `ORDER/2` separators.  `none`: not of that shape. -/
+def physRemoveLeafKey (decomp : Bytes → Option Bytes) (cp : Cmp) (c : PCol) (k : Key) :
+    Except PErr (Option PCol) :=
+  match physHeader decomp c with
+  | .error e => .error e
+  | .ok (root, depth) =>
+    if root = NULL_ADDRESS then .ok none
+    else
+      match fetchNode decomp c root with
+      | .error e => .error e
+      | .ok rn =>
+        match physPath decomp c depth root rn k with
+        | .error e => .error e
+        | .ok none => .ok none
+        | .ok (some (path, found)) =>
+          match path.reverse with
+          | [] => .ok none
+          | (la, ln, i) :: up =>
+            if found = false ∨ ln.seps.length ≤ C04.MIDDLE ∨ path.length ≠ depth + 1 then .ok none
+            else
+              match ln.seps[i]? with
+              | none => .ok none
+              | some (_, va) =>
+                match physRemove c va with
+                | .error e => .error e
+                | .ok c1 =>
+                  match writeBack c1 la { ln with seps := ln.seps.eraseIdx i } up with
+                  | .error e => .error e
+                  | .ok (c2, r) =>
+                    match finishRoot cp c2 depth r with
+                    | .error e => .error e
+                    | .ok c3 => .ok (some c3)
+
+/-- `write_plan` of the transaction `Set(k, v)`, `k` absent, the LEAF IS FULL and its parent has
+room (tree of depth >= 1): `Node::insert` writes the value (`create_separator`), splits the leaf
+(`split`: with the new separator inserted, the first `ORDER/2` separators stay, the next one moves
+up, the rest form the right node), writes the RIGHT node as a new entry (`write_split_child`), returns
+to the parent, whose `write_child` writes the LEFT node at the leaf's address (or a new one if it
+changes tier), then `insert_node` puts the separator and the right child into the parent, which is
+written back like any changed node (`writeBack`), the header last.  `none`: not of that shape. -/
+def physInsertSplitLeaf (decomp : Bytes → Option Bytes) (cp : Cmp) (c : PCol) (k : Key) (v : Bytes) :
+    Except PErr (Option PCol) :=
+  match physHeader decomp c with
+  | .error e => .error e
+  | .ok (root, depth) =>
+    if root = NULL_ADDRESS then .ok none
+    else
+      match fetchNode decomp c root with
+      | .error e => .error e
+      | .ok rn =>
+        match physPath decomp c depth root rn k with
+        | .error e => .error e
+        | .ok none => .ok none
+        | .ok (some (path, found)) =>
+          match path.reverse with
+          | (la, ln, i) :: (pa, pn, pi) :: up =>
+            if found = true ∨ ln.seps.length ≠ C04.ORDER ∨ C04.ORDER ≤ pn.seps.length ∨
+                path.length ≠ depth + 1 then .ok none
+            else
+              match physWriteValue cp c none v with
+              | .error e => .error e
+              | .ok (_, none) => .ok none
+              | .ok (c1, some va) =>
+                let s' := insertAtL ln.seps i (k, va)
+                match s'[C04.MIDDLE]? with
+                | none => .ok none
+                | some sep =>
+                  match physWriteNode c1 ⟨s'.drop (C04.MIDDLE + 1), []⟩ none with
+                  | .error e => .error e
+                  | .ok (_, none) => .ok none
+                  | .ok (c2, some ra) =>
+                    match physWriteNode c2 ⟨s'.take C04.MIDDLE, []⟩ (some la) with
+                    | .error e => .error e
+                    | .ok (c3, lr) =>
+                      let pn' : C04.RawNode :=
+                        { seps := insertAtL pn.seps pi sep,
+                          children := insertAtL (pn.children.set pi (lr.getD la)) (pi + 1) ra }
+                      match writeBack c3 pa pn' up with
+                      | .error e => .error e
+                      | .ok (c4, r) =>
+                        match finishRoot cp c4 depth r with
+                        | .error e => .error e
+                        | .ok c5 => .ok (some c5)
+          | _ => .ok none
+
 /-! ## abstraction -/
 
 /-- `some` of all elements, or `none` -/
@@ -442,6 +618,17 @@ def jointCheck (decomp : Bytes → Option Bytes) (c : PCol) : Bool :=
                   -> `ok moved=<0/1>` | `unsupported` | `err:<Kind>`: `physSetExisting` (the whole
                      `write_plan` of the transaction `Set(key, value)` on a present key) with the
                      compressor "returns <compressed hex>" (`none`: the column does not compress)
+  c04b phys ins <keyhex> <valuehex> <threshold> <compressed hex | none>
+                  -> `ok` | `unsupported` | `err:<Kind>`: `physInsertAbsent` (the whole `write_plan` of
+                     `Set(key, value)`, key ABSENT, leaf not full: value entry, leaf, the parents whose
+                     child moved, header if the root moved)
+  c04b phys split <keyhex> <valuehex> <threshold> <compressed hex | none>
+                  -> `ok` | `unsupported` | `err:<Kind>`: `physInsertSplitLeaf` (`Set(key, value)`, key absent,
+                     the leaf is FULL and its parent has room: value, right node (new), left node, parent,
+                     ancestors whose child moved, header)
+  c04b phys del <keyhex> <threshold>
+                  -> `ok` | `unsupported` | `err:<Kind>`: `physRemoveLeafKey` (the whole `write_plan` of
+                     `Dereference(key)`, key in a leaf that keeps ORDER/2 separators)
   c04b phys digest -> `<tier>:<filled>:<last_removed>:<fnv of the slot prefixes 1..filled-1> ...` for
                      every table that was ever written
   c04b phys inv   -> `ok slots=<classified> header=<parts> nodes=<n>/<parts> values=<n>/<parts>
@@ -559,6 +746,32 @@ def step (s : State) (args : List String) : State × String :=
       | .ok none => (s, "unsupported")
       | .error e => (s, showErr e)
     | _, _, _, _ => (s, "bad-op")
+  | ["ins", k, v, thr, cv] =>
+    match C04.unhex k, ValueTable.unhex v, thr.toNat?, (if cv = "none" then some none else (ValueTable.unhex cv).map some) with
+    | some k, some v, some thr, some cv =>
+      let cp : Cmp := ⟨fun x => cv.getD x, thr⟩
+      match physInsertAbsent noDecomp cp s.col k v with
+      | .ok (some c') => ({ s with cur := some c' }, "ok")
+      | .ok none => (s, "unsupported")
+      | .error e => (s, showErr e)
+    | _, _, _, _ => (s, "bad-op")
+  | ["split", k, v, thr, cv] =>
+    match C04.unhex k, ValueTable.unhex v, thr.toNat?, (if cv = "none" then some none else (ValueTable.unhex cv).map some) with
+    | some k, some v, some thr, some cv =>
+      let cp : Cmp := ⟨fun x => cv.getD x, thr⟩
+      match physInsertSplitLeaf noDecomp cp s.col k v with
+      | .ok (some c') => ({ s with cur := some c' }, "ok")
+      | .ok none => (s, "unsupported")
+      | .error e => (s, showErr e)
+    | _, _, _, _ => (s, "bad-op")
+  | ["del", k, thr] =>
+    match C04.unhex k, thr.toNat? with
+    | some k, some thr =>
+      match physRemoveLeafKey noDecomp ⟨id, thr⟩ s.col k with
+      | .ok (some c') => ({ s with cur := some c' }, "ok")
+      | .ok none => (s, "unsupported")
+      | .error e => (s, showErr e)
+    | _, _ => (s, "bad-op")
   | ["digest"] =>
     let c := s.col
     let parts := (List.range NTABLES).filterMap fun tier =>
